@@ -106,9 +106,10 @@ def main():
                 print(f"  check {c} {tier}: exit {rc} {first[:200]}")
                 if rc == 1 and a.tier == "auto":
                     break
-        shutil.rmtree(f"{VERIF}/harness/target-mut-seed-{name}", ignore_errors=True)
-        shutil.rmtree(f"{VERIF}/harness/target-mut-seed-{name}-rel", ignore_errors=True)
-        shutil.rmtree(f"{VERIF}/harness/target-mut-seed-{name}-fuzz", ignore_errors=True)
+        import glob
+        for d in glob.glob(f"{VERIF}/harness/target-mut-seed-{name}*"):
+            if re.fullmatch(rf".*/target-mut-seed-{re.escape(name)}(-rel-nohooks|-rel-hooks|-rel|-fuzz)?", d):
+                shutil.rmtree(d, ignore_errors=True)
     meta["checks"] = results
     meta["detected"] = any(v["exit"] == 1 for v in results.values())
     # keep
